@@ -18,9 +18,9 @@ def delivered_rt(line):
         if tag == "R":
             k, ch, a, b = (int(x) for x in f)
             out.append((sq.dy(st), (k, ch, a, b)))
-    # the All-Notes-Off burst at the end of the song is not part of the music
-    while out and out[-1][1][0] == 11 and out[-1][1][2] == 123:
-        out.pop()
+    # the All-Notes-Off burst at the end of the song (channels 0..15 in order, once) is not part of the music
+    if len(out) >= 16 and [c[1] for c in out[-16:]] == [(11, ch, 123, 0) for ch in range(16)]:
+        out = out[:-16]
     return out
 
 
